@@ -105,10 +105,21 @@ func c13Success(r *core.Run, ci int64, rng *rand.Rand, crev, srev int, dial bool
 	sim.Srv.Hello = hello
 	if delay > 0 {
 		opt.ReadTimeout = 50 * time.Millisecond
+		// every other timeout far below the delay: only HandshakeTimeout may bound the hello
+		opt.DialTimeout = 20 * time.Millisecond
+		realDelay := ci%2 == 0
+		if realDelay {
+			// the hello really arrives later than ReadTimeout and DialTimeout (60 ms vs 10/20 ms)
+			opt.ReadTimeout = 10 * time.Millisecond
+		}
 		script.Hello = func(ref.ClientHello) []simnet.Item {
 			var items []simnet.Item
 			for i := 0; i < delay; i++ {
 				items = append(items, simnet.Item{Timeout: true})
+			}
+			if realDelay {
+				items = append(items, simnet.Item{Gate: "hello-delay", Hold: true})
+				time.AfterFunc(60*time.Millisecond, func() { sim.Conn.Release("hello-delay") })
 			}
 			return append(items, simnet.Item{Data: sim.Srv.ServerHelloBytes(crev)})
 		}
